@@ -431,6 +431,43 @@ func adPair(x, y adOp, sessionAware bool, bound int) *vx.Scenario {
 	return sc
 }
 
+// adSessOps: the session half of the session-aware adapter (connection state recovery): sessions are persisted
+// when a connection is lost and restored when the client comes back - from the goroutines of different
+// connections, next to broadcasts and the periodic clean-up. One session is still valid, one has expired but
+// was not swept yet (the cleaner runs once a minute), one pid is unknown.
+var adSessOps = []adOp{
+	{"PersistSession", func(a adapter.Adapter) {
+		a.PersistSession(&adapter.SessionToPersist{SID: "s9", PID: "p-new", Rooms: []adapter.Room{"s9", "r1"}})
+	}},
+	{"RestoreSession(valid)", func(a adapter.Adapter) { a.RestoreSession("p-valid", "") }},
+	{"RestoreSession(expired, not swept yet)", func(a adapter.Adapter) { a.RestoreSession("p-old", "") }},
+	{"RestoreSession(unknown pid)", func(a adapter.Adapter) { a.RestoreSession("p-nobody", "") }},
+	{"Broadcast", func(a adapter.Adapter) {
+		a.Broadcast(&parser.PacketHeader{Type: parser.PacketTypeEvent, Namespace: "/"}, []any{"ev", 1}, adOpts("r1"))
+	}},
+	{"clean-up pass", func(a adapter.Adapter) { vsched.Sleep(50 * time.Second) }}, // the pass of 180 s falls into the scenario
+}
+
+func adSessPair(x, y adOp, bound int) *vx.Scenario {
+	sc := &vx.Scenario{Name: "session-aware-adapter-sessions/" + x.name + " || " + y.name, PreemptOnly: true, Bound: bound, Horizon: 4 * time.Minute}
+	sc.Body = func(e *vsched.Exec) func() vx.Result {
+		vsched.SetExploring(false)
+		a := adapter.NewSessionAwareAdapterCreator(2*time.Minute)(nullStore{}, jsonparser.NewCreator(0, stdjson.New()))
+		a.AddAll("s2", []adapter.Room{"r1"})
+		a.Broadcast(&parser.PacketHeader{Type: parser.PacketTypeEvent, Namespace: "/"}, []any{"ev", 0}, adOpts("r1"))
+		a.PersistSession(&adapter.SessionToPersist{SID: "s7", PID: "p-old", Rooms: []adapter.Room{"s7", "r1"}})
+		vsched.Sleep(100 * time.Second)
+		a.PersistSession(&adapter.SessionToPersist{SID: "s8", PID: "p-valid", Rooms: []adapter.Room{"s8", "r1"}})
+		vsched.Sleep(30*time.Second + time.Second) // 131 s: p-old is older than the window, the next pass is at 180 s
+		vsched.SetExploring(true)
+		vsched.GoQuiet("A:"+x.name, func() { x.run(a) })
+		vsched.GoQuiet("B:"+y.name, func() { y.run(a) })
+		vsched.Sleep(time.Minute)
+		return func() vx.Result { return vx.Result{Outcome: "done"} }
+	}
+	return sc
+}
+
 func scenarios(tier string) []*vx.Scenario {
 	b := 1
 	if tier == "thorough" {
@@ -464,6 +501,14 @@ func scenarios(tier string) []*vx.Scenario {
 	for _, where := range []string{"manager-error-after-failed-dial", "manager-error-while-reconnecting", "connect-handler", "disconnect-handler", "event-handler", "ack-callback"} {
 		for _, op := range cliHandlerOps {
 			s = append(s, cliInHandler(where, op, b))
+		}
+	}
+	for i := range adSessOps {
+		for j := i; j < len(adSessOps); j++ {
+			if adSessOps[i].name == "clean-up pass" && i == j {
+				continue
+			}
+			s = append(s, adSessPair(adSessOps[i], adSessOps[j], b+1))
 		}
 	}
 	for _, sa := range []bool{false, true} {
@@ -550,7 +595,7 @@ func main() {
 	vx.Main(vx.Config{
 		Property:  "C16",
 		Level:     "model_checking",
-		Rule:      "every unordered pair (incl. an operation with itself) of operations from a 26-operation server alphabet (API calls and incoming traffic) over harness-implemented Engine.IO sockets, an 18-operation Go-client alphabet (a manager with two connected sockets; incl. the link breaking, which starts the reconnection machinery) over the in-process polling link, the same with the socket configured with Retries and AckTimeout (packet queue: 10 operations), and a 10-operation adapter alphabet (incl. a Broadcast whose argument cannot be encoded, recovered by the caller) (in-memory and session-aware) as a two-thread program, plus every server operation issued from inside an event handler, a disconnecting handler and an ack callback against two concurrent operations, and 7 client operations issued from inside the manager's error handler (failed dial, with and without reconnection), a socket's connect and disconnect handlers, an event handler and an ack callback; all schedules to the deviation bound, each judged by the race detector (reports whose racing access lies in repository code), the deadlock detector and the held-mutex check. distinct_nontrivial = deviating schedules",
+		Rule:      "every unordered pair (incl. an operation with itself) of operations from a 26-operation server alphabet (API calls and incoming traffic) over harness-implemented Engine.IO sockets, an 18-operation Go-client alphabet (a manager with two connected sockets; incl. the link breaking, which starts the reconnection machinery) over the in-process polling link, the same with the socket configured with Retries and AckTimeout (packet queue: 10 operations), a 6-operation alphabet of the session-aware adapter's session half (persist, restore of a valid / an expired but not yet swept / an unknown session, broadcast, the clean-up pass), and a 10-operation adapter alphabet (incl. a Broadcast whose argument cannot be encoded, recovered by the caller) (in-memory and session-aware) as a two-thread program, plus every server operation issued from inside an event handler, a disconnecting handler and an ack callback against two concurrent operations, and 7 client operations issued from inside the manager's error handler (failed dial, with and without reconnection), a socket's connect and disconnect handlers, an event handler and an ack callback; all schedules to the deviation bound, each judged by the race detector (reports whose racing access lies in repository code), the deadlock detector and the held-mutex check. distinct_nontrivial = deviating schedules",
 		Scenarios: scenarios,
 		Extra:     runCompanion,
 		Budget: func(tier string) time.Duration {
